@@ -27,6 +27,7 @@ def lib():
 
 
 _K = {}
+CTOR_FAIL = [False]
 
 
 def kit():
@@ -37,7 +38,10 @@ def kit():
   h, dl, R = L['htf'], L['dl'], L['R']
 
   class RealPlug(bp.BasePlug):
-    pass
+
+    def __init__(self):
+      if CTOR_FAIL[0]:
+        raise OSError('plug constructor failed (injected)')
 
   class OtherPlug(bp.BasePlug):
     pass
@@ -53,6 +57,14 @@ def kit():
   return _K
 
 
+def is_small(value):
+  return value < 100
+
+
+def is_tiny(value):
+  return value < 1
+
+
 def make_base():
   """Fresh base objects X (rich phase) and Y (plain phase)."""
   L, bp, pb, pc, v = lib()
@@ -61,6 +73,7 @@ def make_base():
 
   def x_body(test, p, a=0):
     test.measurements.m = 3
+    test.measurements.n = 4
     test.state['seen'] = test.state.get('seen', 0) + 1
     test.logger.info('x runs a=%s state=%s', a, test.state['seen'])
     test.attach('att', b'x' * (a + 1))
@@ -69,7 +82,8 @@ def make_base():
     test.logger.info('y runs; state=%r', dict(test.state))
 
   x = h.PhaseOptions(name='x-{a}', timeout_s=30)(x_body)
-  x = h.measures(h.Measurement('m').in_range(0, 10).validate_on({R.B: v.in_range(0, 1)}))(x)
+  x = h.measures(h.Measurement('m').in_range(0, 10).validate_on({R.B: v.in_range(0, 1)}),
+                 h.Measurement('n').with_validator(is_small))(x)       # (a validator without with_args)
   x = h.diagnose(K['diag1'])(x)
   x = h.plugs.plug(p=K['RealPlug'].placeholder)(x)
   y = h.PhaseOptions(name='y')(y_body)
@@ -172,6 +186,7 @@ def ops():
       'clear_diagnosers': mut(lambda p: p.diagnosers.clear()),
       'pop_plug': mut(lambda p: p.plugs.pop() if p.plugs else None),
       'update_options': mut(lambda p: p.options.update(force_repeat=True, repeat_limit=1)),
+      'add_validator': mut(lambda p: [m.with_validator(is_tiny) for m in p.measurements] or None),
   }
   return derive, mutate
 
@@ -228,6 +243,19 @@ def run_history(hist):
         if r is None:
           return None
         changed_ok = {src}
+      elif name == 'execute_ctorfail':
+        # a run in which a plug constructor fails must not change what the next run of the same object produces
+        changed_ok = set()
+        r1 = execute(target)
+        CTOR_FAIL[0] = True
+        try:
+          rf = execute(target)
+        finally:
+          CTOR_FAIL[0] = False
+        r2 = execute(target)
+        if r1 != r2:
+          bad.append(('run-depends-on-earlier-run', 'executing %s after a run whose plug constructor failed gave %r, before it %r'
+                      % (label, r2, r1)))
       elif name in ('execute', 'execute_B'):
         r1 = execute(target, name == 'execute_B')
         r2 = execute(target, name == 'execute_B')
@@ -266,7 +294,7 @@ def first_diff(a, b, path=''):
 
 def histories(tier):
   derive, mutate = ops()
-  names = list(derive) + list(mutate) + ['execute', 'execute_B']
+  names = list(derive) + list(mutate) + ['execute', 'execute_B', 'execute_ctorfail']
   depth = 3 if tier == 'quick' else 4
   for d in range(1, depth + 1):
     for combo in itertools.product(names, repeat=d):
